@@ -1,6 +1,7 @@
 import VerifModel.Model.Axis
 import VerifModel.Spec.Slicing
 import VerifModel.Spec.Calendar
+import VerifModel.Spec.LeadTime
 import Proofs.C11Calendar
 import Mathlib.Tactic.Ring
 import Mathlib.Tactic.FieldSimp
@@ -741,23 +742,87 @@ theorem C11_timeofday (t : Int) :
     rw [div_lt_iff₀ (by norm_num)]
     linarith
 
-/-- **Lead-time day**: for a non-negative lead time `l` (hours) the bucket `n` is the whole number of
-24 h periods: `24·n ≤ l < 24·(n+1)`, `n ≥ 0`. -/
-theorem C11_leadtimeday (l : Rat) (hl : 0 ≤ l) :
-    0 ≤ leadtimeDay l ∧ (leadtimeDay l : Rat) * 24 ≤ l ∧ l < ((leadtimeDay l : Rat) + 1) * 24 := by
-  have hq : 0 ≤ l / 24 := by positivity
-  have e : leadtimeDay l = (l / 24).floor := by simp [leadtimeDay, truncate, hq]
-  have a := Rat.floor_le (l / 24)
-  have b := Rat.lt_floor_add_one (l / 24)
-  have c : l / 24 * 24 = l := by field_simp
-  rw [e]
-  refine ⟨Rat.le_floor_iff.mpr (by simpa using hq), ?_, ?_⟩
-  · linarith
-  · push_cast at b; linarith
+/-- **Lead-time day**, every lead time `l` (hours, of either sign).  The bucket `n` is the whole
+number of 24 h periods contained in `l`, counted with the sign of `l` (the integer part of `l / 24`;
+Python's `int()` truncates toward zero, made explicit here):
 
-example := C11_leadtimeday (479 / 10) (by decide +kernel)
-example : leadtimeDay (479 / 10) = 1 ∧ leadtimeDay 48 = 2 ∧ leadtimeDay (1 / 2) = 0 := by
+* `n = wholeDays l` = `⌊l/24⌋` for `l ≥ 0`, `-⌊-l/24⌋` for `l < 0`;
+* `l ≥ 0`: `n ≥ 0` and `24·n ≤ l < 24·(n+1)`;
+* `l ≤ 0`: `n ≤ 0` and `24·(n-1) < l ≤ 24·n` — so the bucket 0 holds all of `-24 < l < 24`;
+* the bucket of `-l` is `-n`. -/
+theorem C11_leadtimeday (l : Rat) :
+    leadtimeDay l = Spec.LeadTime.wholeDays l ∧
+    (0 ≤ l → 0 ≤ leadtimeDay l ∧ (leadtimeDay l : Rat) * 24 ≤ l ∧ l < ((leadtimeDay l : Rat) + 1) * 24) ∧
+    (l ≤ 0 → leadtimeDay l ≤ 0 ∧ ((leadtimeDay l : Rat) - 1) * 24 < l ∧ l ≤ (leadtimeDay l : Rat) * 24) ∧
+    leadtimeDay (-l) = -leadtimeDay l := by
+  have c : l / 24 * 24 = l := by field_simp
+  have pos : ∀ x : Rat, 0 ≤ x → leadtimeDay x = (x / 24).floor ∧ 0 ≤ (x / 24).floor ∧
+      ((x / 24).floor : Rat) * 24 ≤ x ∧ x < (((x / 24).floor : Rat) + 1) * 24 := by
+    intro x hx
+    have hq : 0 ≤ x / 24 := by positivity
+    have a := Rat.floor_le (x / 24)
+    have b := Rat.lt_floor_add_one (x / 24)
+    have c : x / 24 * 24 = x := by field_simp
+    refine ⟨by simp [leadtimeDay, truncate, hq], Rat.le_floor_iff.mpr (by simpa using hq), ?_, ?_⟩
+    · linarith
+    · push_cast at b; linarith
+  have neg : ∀ x : Rat, x < 0 → leadtimeDay x = -((-x) / 24).floor := by
+    intro x hx
+    have hq : ¬ (0 ≤ x / 24) := by
+      rw [not_le]; exact div_neg_of_neg_of_pos hx (by norm_num)
+    simp only [leadtimeDay, truncate, hq, if_false, Rat.ceil_eq_neg_floor_neg]
+    congr 2; ring
+  have hodd : leadtimeDay (-l) = -leadtimeDay l := by
+    rcases lt_trichotomy l 0 with h | h | h
+    · rw [neg l h, (pos (-l) (by linarith)).1]; simp
+    · subst h; decide +kernel
+    · rw [neg (-l) (by linarith), (pos l h.le).1]; simp
+  refine ⟨?_, ?_, ?_, hodd⟩
+  · unfold Spec.LeadTime.wholeDays
+    split
+    · rename_i h; exact (pos l h).1
+    · rename_i h; exact neg l (not_le.mp h)
+  · intro h
+    obtain ⟨e, p0, p1, p2⟩ := pos l h
+    rw [e]; exact ⟨p0, p1, p2⟩
+  · intro h
+    obtain ⟨e, p0, p1, p2⟩ := pos (-l) (by linarith)
+    have e' : leadtimeDay l = -((-l) / 24).floor := by
+      have := hodd; rw [e] at this; omega
+    rw [e']
+    refine ⟨by omega, ?_, ?_⟩
+    · push_cast; linarith
+    · push_cast; linarith
+
+example : leadtimeDay (479 / 10) = 1 ∧ leadtimeDay 48 = 2 ∧ leadtimeDay (1 / 2) = 0 ∧
+    leadtimeDay (-1 / 2) = 0 ∧ leadtimeDay (-49 / 2) = -1 ∧ leadtimeDay (-479 / 10) = -1 ∧
+    leadtimeDay (-24) = -1 := by
   decide +kernel
+
+/-- the same convention next to floor division: for a negative lead time that is not a multiple of
+24 h the bucket is one above `⌊l / 24⌋` (`int()` is not `floor`) -/
+theorem C11_leadtimeday_vs_floor (l : Rat) :
+    (0 ≤ l → leadtimeDay l = (l / 24).floor) ∧
+    (l < 0 → leadtimeDay l = (l / 24).ceil ∧
+      (((l / 24).floor : Rat) ≠ l / 24 → leadtimeDay l = (l / 24).floor + 1)) := by
+  refine ⟨fun h => ?_, fun h => ?_⟩
+  · have hq : 0 ≤ l / 24 := by positivity
+    simp [leadtimeDay, truncate, hq]
+  · have hq : ¬ (0 ≤ l / 24) := by
+      rw [not_le]; exact div_neg_of_neg_of_pos h (by norm_num)
+    have e : leadtimeDay l = (l / 24).ceil := by simp [leadtimeDay, truncate, hq]
+    refine ⟨e, fun hne => ?_⟩
+    rw [e]
+    have hlt : ((l / 24).floor : Rat) < l / 24 := lt_of_le_of_ne (Rat.floor_le _) hne
+    have h1 : (l / 24).floor < (l / 24).ceil := Rat.lt_ceil_iff.mpr hlt
+    have h2 : (l / 24).ceil ≤ (l / 24).floor + 1 := by
+      rw [Rat.ceil_le_iff]
+      have := Rat.lt_floor_add_one (l / 24)
+      push_cast at this ⊢
+      linarith
+    omega
+
+example : leadtimeDay (-49 / 2) = ((-49 / 2 : Rat) / 24).floor + 1 := by decide +kernel
 
 end calendar
 
